@@ -190,15 +190,27 @@ def _source_param(ctx, f) -> str:
 
 
 def _output_wiring(ctx, f):
-    """(template assigned to op_info['output'], template assigned to edge['source_var'], their statements)."""
+    """(template assigned to op_info['output'], template assigned to edge['source_var'], their statements); the assignment may sit
+    in a helper that receives the value as a parameter (then the statement is the call and the template that of the argument)."""
     outs, srcs = [], []
-    for n in walk_shallow(f.node):
-        if isinstance(n, ast.Assign) and len(n.targets) == 1 and isinstance(n.targets[0], ast.Subscript):
-            k = const_str(n.targets[0].slice)
-            if k == "output":
-                outs.append((U.render_expr(ctx, f, n.value), n))
-            elif k == "source_var":
-                srcs.append((U.render_expr(ctx, f, n.value), n))
+
+    def stores(g):
+        for n in walk_shallow(g.node):
+            if isinstance(n, ast.Assign) and len(n.targets) == 1 and isinstance(n.targets[0], ast.Subscript):
+                k = const_str(n.targets[0].slice)
+                if k in ("output", "source_var"):
+                    yield k, n
+
+    for k, n in stores(f):
+        (outs if k == "output" else srcs).append((U.render_expr(ctx, f, n.value), n))
+    for call, g, binding in U.helper_calls(ctx, f):
+        for k, n in stores(g):
+            v = n.value
+            if isinstance(v, ast.Name) and U.is_param(ctx, g, v) and v.id in binding:
+                (outs if k == "output" else srcs).append((U.render_expr(ctx, f, binding[v.id]), U.stmt_of_expr(call)))
+            elif k == "output":
+                raise AnalysisError(f"{f.qual}: the helper {g.qualname} sets an operator's 'output' to `{ast.unparse(v)}`, which is not a value "
+                                    f"handed in by the caller (unrecognised form)")
     return outs, srcs
 
 
@@ -1043,19 +1055,44 @@ def _check_call_site(ctx, rid, g, call: ast.Call, coll, roles, addb=None):
     coll_calls = set()
     zips = set()
 
-    def resolve(e):
-        """-> (granularity 'all' | 'each', Name node of the whole list)"""
+    def resolve(e, cond=None, pname=None):
+        """-> (granularity 'all' | 'each', Name node of the whole list).  `x if c else None` stands for x where None is the
+        parameter's default (the argument is then as good as omitted); an element drawn from `xs if c else repeat(None)` inside a
+        zip stands for an element of xs when the same condition c guards its use."""
+        if isinstance(e, ast.IfExp) and cond is None and addb is not None and pname is not None:
+            dv = U._default_of(addb, pname)
+            none_default = isinstance(dv, ast.Constant) and dv.value is None
+            for val, other, arm in ((e.body, e.orelse, True), (e.orelse, e.body, False)):
+                if isinstance(other, ast.Constant) and other.value is None and none_default:
+                    return resolve(val, (e.test, arm), pname)
+            return None, None, None
         if isinstance(e, ast.Name):
             return "all", e, None
         if isinstance(e, ast.List) and len(e.elts) == 1 and isinstance(e.elts[0], ast.Name):
             src = U.element_source(ctx, g, e.elts[0])
+            for _ in range(4):
+                if isinstance(src, ast.IfExp) and cond is not None:
+                    rel = U.test_relation(ctx, g, src.test, cond[0])
+                    if not rel:
+                        break
+                    src = src.body if (cond[1] if rel == 1 else not cond[1]) else src.orelse
+                elif isinstance(src, ast.IfExp) and cond is None:
+                    # a column that is a collected list on one arm and a filler on the other: the list decides whose values these are
+                    arms = [a_ for a_ in (src.body, src.orelse) if isinstance(a_, ast.Name)]
+                    if len(arms) != 1:
+                        break
+                    src = arms[0]
+                elif isinstance(src, ast.Name) and isinstance(U.single_value(ctx, g, src), (ast.IfExp, ast.Name)):
+                    src = U.single_value(ctx, g, src)       # a local that only names the zipped column
+                else:
+                    break
             if isinstance(src, ast.Name):
                 d = ctx.rd(g).defs_reaching(e.elts[0])
                 return "each", src, (d[0] if d else None)
         return None, None, None
 
     for kwname, role in wanted.items():
-        gr, whole, loop = resolve(kw[kwname])
+        gr, whole, loop = resolve(kw[kwname], None, kwname)
         if gr is None:
             raise AnalysisError(f"{rid}: {g.qual}: argument {kwname}={ast.unparse(kw[kwname])} has an unrecognised form")
         gran.add(gr)
